@@ -167,6 +167,14 @@ impl System {
         self.fmp = fmp;
     }
 
+    /// Sets the hash of the function which initiated the current execution context.
+    ///
+    /// A `dyncall` enters the new context through a CALL to the DYN block, whose hash is the same
+    /// for every target; once the target is known its hash becomes the context's function hash.
+    pub fn set_fn_hash(&mut self, fn_hash: Word) {
+        self.fn_hash = fn_hash;
+    }
+
     /// Updates system registers to mark a new function call.
     ///
     /// Internally, this performs the following updates:
